@@ -76,8 +76,45 @@ fn vba_desc(seed: u64) -> ovba::VbaProjectDesc {
     }
 }
 
+pub const NBASES: u8 = 14;
+
 fn build(base: u8, seed: u64) -> Container {
-    match base % 9 {
+    match base % NBASES {
+        9 => {
+            // token formulas of every kind (xls): references, areas, 3-D, names, functions, literals
+            let mut c = sample_one(&crate::props::c14::strategy(), seed);
+            c.wide = false;
+            for (p, _) in &mut c.formulas {
+                *p = (p.0 % 65_536, p.1 % 256);
+            }
+            for p in &mut c.consts {
+                *p = (p.0 % 65_536, p.1 % 256);
+            }
+            let doc = crate::props::c14::xls_doc(&c);
+            Container { parts: vec![("Workbook".into(), b8::workbook_stream(&doc))], wrap: Wrap::Cfb(doc.cfb.clone()) }
+        }
+        10 => {
+            let c = sample_one(&crate::props::c14::strategy(), seed);
+            let (parts, knobs) = bb::parts(&crate::props::c14::xlsb_doc(&c));
+            Container { parts, wrap: Wrap::Zip(knobs) }
+        }
+        11 => {
+            // shared-formula groups over an open-ended formula language (xlsx)
+            let c = sample_one(&crate::props::c15::case_strategy(), seed);
+            let (parts, knobs) = xx::parts(&crate::props::c15::build(&c).0);
+            Container { parts, wrap: Wrap::Zip(knobs) }
+        }
+        12 => {
+            let c = sample_one(&crate::props::c14::strategy(), seed);
+            let (parts, knobs) = xx::parts(&crate::props::c14::xlsx_doc(&c));
+            Container { parts, wrap: Wrap::Zip(knobs) }
+        }
+        13 => {
+            // plain cell grid (xlsx) under a generated physical encoding
+            let c = sample_one(&crate::props::c01::doc_strategy(), seed);
+            let (parts, knobs) = xx::parts(&c);
+            Container { parts, wrap: Wrap::Zip(knobs) }
+        }
         0 => {
             let c = sample_one(&crate::props::c17::case_strategy(), seed);
             let (parts, knobs) = xx::parts(&c.doc);
@@ -363,11 +400,15 @@ const WORDS: &[u32] = &[0, 1, 0xFF, 0xFFFF, 0xFFFF_FFFF, 0x7FFF_FFFF, 0x8000_000
 
 fn mutate_records(data: &mut Vec<u8>, f: &Fault, biff12: bool) {
     let recs = if biff12 { biff12_records(data) } else { biff8_records(data) };
+    if f.kind % 10 >= 8 {
+        token_surgery(data, &recs, f, biff12);
+        return;
+    }
     let Some(&(rs, ps, pe)) = pick(&recs, f.a) else {
         mutate_bytes(data, f);
         return;
     };
-    match f.kind % 8 {
+    match f.kind % 10 {
         0 => data.truncate(at(data.len(), f.a)),
         1 => {
             // declared length changed, payload untouched
@@ -402,7 +443,7 @@ fn mutate_records(data: &mut Vec<u8>, f: &Fault, biff12: bool) {
             if pe > ps {
                 let off = ps + (f.b as usize >> 8) % (pe - ps);
                 let w = WORDS[f.b as usize % WORDS.len()];
-                let width = if f.kind % 8 == 3 { 2 } else { 4 };
+                let width = if f.kind % 10 == 3 { 2 } else { 4 };
                 for (k, byte) in w.to_le_bytes().iter().take(width).enumerate() {
                     if off + k < pe {
                         data[off + k] = *byte;
@@ -434,6 +475,63 @@ fn mutate_records(data: &mut Vec<u8>, f: &Fault, biff12: bool) {
             let at = pe;
             data.splice(at..at, copy);
         }
+    }
+}
+
+/// formula records: the token stream is cut short, its declared size changed, or a token id is
+/// replaced by another one, so that every token kind meets every number of operand bytes
+fn token_surgery(data: &mut Vec<u8>, recs: &[(usize, usize, usize)], f: &Fault, biff12: bool) {
+    // (record start, payload start, payload end, offset of cce, width of cce, offset of rgce)
+    let mut formulas = vec![];
+    for &(rs, ps, pe) in recs {
+        let id = if biff12 {
+            if data[rs] & 0x80 != 0 { ((data[rs] & 0x7F) as u16) | ((data[rs + 1] as u16) << 7) } else { data[rs] as u16 }
+        } else {
+            u16::from_le_bytes([data[rs], data[rs + 1]])
+        };
+        let layout = match (biff12, id) {
+            (false, 0x0006) => Some((20, 2, 22)),
+            (true, 0x0009) => Some((18, 4, 22)),
+            (true, 0x000A) | (true, 0x000B) => Some((11, 4, 15)),
+            _ => None,
+        };
+        if let Some((cce, w, rg)) = layout {
+            if pe - ps > rg {
+                formulas.push((rs, ps, pe, cce, w, rg));
+            }
+        }
+    }
+    let Some(&(rs, ps, pe, cce, w, rg)) = pick(&formulas, f.a) else {
+        mutate_bytes(data, f);
+        return;
+    };
+    let token = ((f.b >> 8) % 0x7F + 1) as u8;
+    let keep = 1 + ((f.b >> 16) as usize % 12);
+    let mode = f.b % 4;
+    if mode == 0 || mode == 2 {
+        data[ps + rg] = token;
+    }
+    if mode == 3 {
+        let off = ps + rg + (f.b >> 20) as usize % (pe - ps - rg);
+        data[off] = token;
+    }
+    if mode == 1 || mode == 2 {
+        // the expression ends after `keep` bytes: declared size and record shortened together
+        let keep = keep.min(pe - ps - rg);
+        data[ps + cce..ps + cce + w].copy_from_slice(&(keep as u32).to_le_bytes()[..w]);
+        let new_len = rg + keep;
+        let mut out = data[..rs].to_vec();
+        if biff12 {
+            let id_len = ps - rs - varint_len(pe - ps);
+            out.extend_from_slice(&data[rs..rs + id_len]);
+            out.extend(varint(new_len));
+        } else {
+            out.extend_from_slice(&data[rs..rs + 2]);
+            out.extend_from_slice(&(new_len as u16).to_le_bytes());
+        }
+        out.extend_from_slice(&data[ps..ps + new_len]);
+        out.extend_from_slice(&data[pe..]);
+        *data = out;
     }
 }
 
@@ -514,7 +612,34 @@ fn mutate_cfb(data: &mut Vec<u8>, f: &Fault) {
     let w = WORDS[f.b as usize % WORDS.len()];
     let rd = |d: &[u8], o: usize| u32::from_le_bytes(d[o..o + 4].try_into().unwrap());
     let ss = if data[30] == 12 { 4096 } else { 512 };
-    match f.kind % 8 {
+    // a chain fault may come with the declared count that a reader could use to bound the chain
+    // (directory sectors 40, FAT sectors 44, mini-FAT sectors 64, DIFAT sectors 72)
+    let inflate = |data: &mut Vec<u8>, off: usize| {
+        if f.b & 0x100 != 0 {
+            let v = [0xFFFF_FFFFu32, 0x7FFF_FFFF, 0x00FF_FFFF, 0x0001_0000][(f.b >> 9) as usize % 4];
+            data[off..off + 4].copy_from_slice(&v.to_le_bytes());
+        }
+    };
+    match f.kind % 9 {
+        8 => {
+            // DIFAT chain through sector k: a self cycle, or a 2-cycle with sector j
+            let n = (data.len() / ss).saturating_sub(1);
+            if n >= 2 {
+                let k = f.a as usize % n;
+                let j = (f.a >> 8) as usize % n;
+                let last = |s: usize| (s + 1) * ss + ss - 4;
+                data[68..72].copy_from_slice(&(k as u32).to_le_bytes());
+                if f.b % 2 == 0 {
+                    data[last(k)..last(k) + 4].copy_from_slice(&(k as u32).to_le_bytes());
+                } else {
+                    data[last(k)..last(k) + 4].copy_from_slice(&(j as u32).to_le_bytes());
+                    data[last(j)..last(j) + 4].copy_from_slice(&(k as u32).to_le_bytes());
+                }
+                let cnt = [1u32, 2, 0, 0xFFFF_FFFF][(f.b >> 4) as usize % 4];
+                data[72..76].copy_from_slice(&cnt.to_le_bytes());
+                inflate(data, 44);
+            }
+        }
         0 => {
             let offs = [26usize, 30, 32, 40, 44, 48, 56, 60, 64, 68, 72, 76, 80];
             let o = offs[f.a as usize % offs.len()];
@@ -540,6 +665,9 @@ fn mutate_cfb(data: &mut Vec<u8>, f: &Fault) {
                     _ => (j as u32) + 1,
                 };
                 data[base + 4 * j..base + 4 * j + 4].copy_from_slice(&v.to_le_bytes());
+                if f.b % 6 < 2 {
+                    inflate(data, [40usize, 44, 44, 64][(f.b >> 12) as usize % 4]);
+                }
             }
         }
         3 | 4 => {
@@ -748,7 +876,10 @@ fn oracle_with(case: &Case, strict: bool) -> Report {
     use crate::isolate::{encode_stats, isolated, Outcome};
     let mut rep = Report::new();
     let bytes = assemble(case);
-    rep.label(["base:xlsx", "base:xlsx-shared-formulas", "base:xlsb", "base:xls", "base:xls-sst", "base:ods", "base:xlsm-vba", "base:xls-vba", "base:cfb"][case.base as usize % 9]);
+    rep.label(
+        ["base:xlsx", "base:xlsx-shared-formulas", "base:xlsb", "base:xls", "base:xls-sst", "base:ods", "base:xlsm-vba", "base:xls-vba", "base:cfb", "base:xls-formulas", "base:xlsb-formulas", "base:xlsx-shared-groups", "base:xlsx-formulas", "base:xlsx-grid"]
+            [case.base as usize % NBASES as usize],
+    );
     rep.label(format!("faults:{}", case.faults.len()));
     if bytes.len() > (1 << 20) {
         rep.label("skipped:>1MiB");
@@ -863,7 +994,14 @@ fn case_strategy() -> impl Strategy<Value = Case> {
         1 => (any::<u16>(), 190u8..200, any::<u32>(), any::<u32>()).prop_map(|(target, kind, a, b)| Fault { target, kind, a, b }),
         3 => (any::<u16>(), 200u8..=255, any::<u32>(), any::<u32>()).prop_map(|(target, kind, a, b)| Fault { target, kind, a, b }),
     ];
-    (0u8..9, any::<u64>(), proptest::collection::vec(fault, 1..4)).prop_map(|(base, seed, faults)| Case { base, seed, faults, bytes_hex: None })
+    (0u8..NBASES, any::<u64>(), proptest::collection::vec(fault, 1..4)).prop_map(|(base, seed, faults)| Case { base, seed, faults, bytes_hex: None })
+}
+
+/// well-formed files only: "every byte sequence" includes the valid ones, and a hang or a panic
+/// on unusual but legal content (a non-ASCII sheet name in a shared formula, a token formula of a
+/// rare kind) is a C06 violation like any other
+fn valid_strategy() -> impl Strategy<Value = Case> {
+    (0u8..NBASES, any::<u64>()).prop_map(|(base, seed)| Case { base, seed, faults: vec![], bytes_hex: None })
 }
 
 /// add the final bytes to freshly written replay files
@@ -947,7 +1085,7 @@ pub fn write_corpus(raw: &std::path::Path, zipped: &std::path::Path, per_base: u
     let _ = std::fs::create_dir_all(raw);
     let _ = std::fs::create_dir_all(zipped);
     let mut n = 0;
-    for base in 0..9u8 {
+    for base in 0..NBASES {
         for seed in 0..per_base {
             let seed64 = seed.wrapping_mul(0x9E37_79B9_7F4A_7C15);
             let c = build(base, seed64);
@@ -1102,16 +1240,96 @@ fn fuzz_phase(ctx: &mut Ctx) {
     let _ = std::fs::remove_dir_all(&root);
 }
 
+/// Exhaustive sweep: every formula token id 0x01..=0x7F followed by 0..=11 operand bytes (three
+/// fill patterns), as the whole expression of an xls FORMULA record and of an xlsb BrtFmlaNum
+/// record. A slip in an operand-size table shows up as a panic on a particular (token, length).
+fn ptg_sweep(ctx: &mut Ctx) {
+    let mut cases: Vec<(String, Case)> = vec![];
+    for fmt in 0..2u8 {
+        for ptg in 1..=0x7Fu8 {
+            for keep in 1..=12usize {
+                for fill in if ctx.quick() { vec![0xFFu8, 0x01] } else { vec![0x00u8, 0xFF, 0x01, 0x7F] } {
+                    let mut rgce = vec![ptg];
+                    rgce.extend((1..keep).map(|i| if fill == 0x01 { i as u8 } else { fill }));
+                    let bytes = if fmt == 0 {
+                        let other = |n: &str| b8::BSheet { name: n.into(), cells: vec![b8::BCell { row: 0, col: 0, ixfe: 0, rec: b8::BRec::Number(1.0) }], ..Default::default() };
+                        let doc = b8::XlsDoc {
+                            sheets: vec![b8::BSheet { name: "Main".into(), cells: vec![b8::BCell { row: 1, col: 1, ixfe: 0, rec: b8::BRec::Formula { value: b8::FVal::Num(0.0), rgce } }], dimensions: 1, ..Default::default() }, other("Data")],
+                            xfs: vec![0],
+                            names: vec![b8::BName { name: "Total".into(), wide: false, rgce: vec![0x3A, 0, 0, 0, 0, 0, 0] }],
+                            xtis: vec![(1, 1), (0, 0)],
+                            ..Default::default()
+                        };
+                        b8::encode(&doc)
+                    } else {
+                        let other = |n: &str| bb::BbSheet { name: n.into(), rows: vec![bb::BbRow { r: 0, before: vec![], cells: vec![bb::BbCell { col: 0, style: 0, rec: bb::BbRec::Real(1.0) }] }], ..Default::default() };
+                        let doc = bb::XlsbDoc {
+                            sheets: vec![bb::BbSheet { name: "Main".into(), rows: vec![bb::BbRow { r: 1, before: vec![], cells: vec![bb::BbCell { col: 1, style: 0, rec: bb::BbRec::FmlaNum(0.0, rgce) }] }], ..Default::default() }, other("Data")],
+                            names: vec![("Total".into(), vec![0x3A, 0, 0, 0, 0, 0, 0, 0, 0])],
+                            xtis: vec![(1, 1), (0, 0)],
+                            ..Default::default()
+                        };
+                        bb::encode(&doc)
+                    };
+                    let what = format!("{} formula = token 0x{ptg:02X} + {} operand byte(s) of 0x{fill:02X}", if fmt == 0 { "xls" } else { "xlsb" }, keep - 1);
+                    cases.push((what, Case { base: 0, seed: 0, faults: vec![], bytes_hex: Some(bytes.iter().map(|b| format!("{b:02x}")).collect()) }));
+                }
+            }
+        }
+    }
+    let failures = std::sync::Mutex::new(std::collections::BTreeMap::<String, (Case, String)>::new());
+    let tolerated = std::sync::atomic::AtomicU64::new(0);
+    let next = std::sync::atomic::AtomicUsize::new(0);
+    std::thread::scope(|sc| {
+        for _ in 0..ctx.threads {
+            sc.spawn(|| loop {
+                let i = next.fetch_add(1, std::sync::atomic::Ordering::Relaxed);
+                let Some((what, case)) = cases.get(i) else { break };
+                let rep = oracle(case);
+                if rep.excluded.is_some() {
+                    tolerated.fetch_add(1, std::sync::atomic::Ordering::Relaxed);
+                }
+                if let Some(msg) = rep.verdict {
+                    let sig = msg.rsplit("[signature: ").next().unwrap_or("").to_string();
+                    failures.lock().unwrap().entry(sig).or_insert((case.clone(), format!("{what}: {msg}")));
+                }
+            });
+        }
+    });
+    for (_, (case, msg)) in failures.into_inner().unwrap() {
+        if msg.contains("HARNESS-SELF-CHECK") {
+            eprintln!("{msg}");
+            std::process::exit(2);
+        }
+        ctx.report_violation("faults", &case, &msg);
+    }
+    let n = cases.len() as u64;
+    let mut labels = std::collections::BTreeMap::new();
+    labels.insert("token-x-length combinations".to_string(), n);
+    ctx.record_sweep(
+        "ptg-operands",
+        n,
+        n,
+        labels,
+        vec![serde_json::json!({"format": "xls", "token": "0x2B", "operand_bytes": 5, "fill": "0xFF"}), serde_json::json!({"format": "xlsb", "token": "0x3B", "operand_bytes": 11, "fill": "0x00"})],
+        true,
+        "every token id 0x01..0x7F x 0..11 operand bytes x 2 (quick) / 4 (thorough) fill patterns x {xls FORMULA, xlsb BrtFmlaNum}, each read by all readers under the isolated oracle",
+    );
+}
+
 fn run(ctx: &mut Ctx) {
     if let Ok(dir) = std::env::var("CVERIF_WITNESS") {
         write_witnesses(&dir);
     }
 
-    let n = ctx.n(1500, 400_000);
+    let n = ctx.n(2000, 400_000);
     ctx.max_shrink_iters = 150;
     ctx.run("faults", n, case_strategy, oracle);
+    let n = ctx.n(500, 100_000);
+    ctx.run("valid", n, valid_strategy, oracle);
     ctx.max_shrink_iters = 4000;
     embed_bytes(ctx);
+    ptg_sweep(ctx);
     fuzz_phase(ctx);
     ctx.assumptions.push("inputs are <= 1 MiB; 'memory out of proportion' = more than 256 MiB requested at once or live at the peak (valid files of this size stay below 40 MiB); 'hang' = more than 10 s of thread CPU time, or no progress for 120 s (watchdog), confirmed in isolation by the supervisor".into());
     ctx.assumptions.push("panics recorded in known_findings.json are tolerated by (innermost calamine function, message class); every other panic is a violation".into());
@@ -1119,7 +1337,7 @@ fn run(ctx: &mut Ctx) {
 
 fn replay(sub: &str, case: &serde_json::Value) -> Option<Report> {
     match sub {
-        "faults" => replay_as::<Case>(case, oracle),
+        "faults" | "valid" => replay_as::<Case>(case, oracle),
         "faults-strict" => replay_as::<Case>(case, oracle_strict),
         _ => None,
     }
